@@ -26,7 +26,10 @@ class OptimatProxy:
 
 
 def mps_config(**kw):
+    """duck-typed MPSConfig carrying every option the real one has (a change that starts reading another
+    option must not trip over the stub).  `dt` is deliberately unrelated to the symbolic time grids."""
     base = dict(
+        dt=7.0,
         optimize_qubit_ordering=True,
         autosave_prefix="verif_",
         autosave_dt=float("inf"),
@@ -35,9 +38,17 @@ def mps_config(**kw):
         max_bond_dim=1024,
         max_krylov_dim=100,
         extra_krylov_tolerance=1e-3,
+        interaction_cutoff=0.0,
+        log_level=20,
+        log_file=None,
         initial_state=None,
         observables=[],
         solver="tdvp",
+        with_modulation=False,
+        noise_model=SimpleNamespace(noise_types=()),
+        n_trajectories=1,
+        interaction_matrix=None,
+        prefer_device_noise_model=False,
     )
     base.update(kw)
     return SimpleNamespace(**base)
